@@ -10,6 +10,7 @@ import (
 	"net/http"
 	"net/http/httptrace"
 	"slices"
+	"sort"
 	"strconv"
 	"strings"
 	"sync"
@@ -238,6 +239,8 @@ type Loader struct {
 
 	// subgraphExtensions - accumulates extensions returned from each subgraph call
 	subgraphExtensions []*astjson.Object
+	// subgraphExtensionsOrigins names, index by index, the fetch each of them came from
+	subgraphExtensionsOrigins []subgraphExtensionsOrigin
 
 	// skipValueCompletion is set when a response has errors but no data
 	// and apolloCompatibilityValueCompletionInExtensions is enabled.
@@ -540,6 +543,48 @@ func (l *Loader) shouldSkipErroredDependencyLocked(item *FetchItem) bool {
 	return false
 }
 
+type subgraphExtensionsOrigin struct {
+	fetchID      int
+	dataSourceID string
+}
+
+// collectSubgraphExtensions keeps the extensions object of a subgraph response together with the fetch it came from.
+func (l *Loader) collectSubgraphExtensions(item *FetchItem, res *result, extensions *astjson.Object) {
+	origin := subgraphExtensionsOrigin{fetchID: -1, dataSourceID: res.ds.ID}
+	if item != nil && item.Fetch != nil {
+		if dependencies := item.Fetch.Dependencies(); dependencies != nil {
+			origin.fetchID = dependencies.FetchID
+		}
+	}
+	l.subgraphExtensions = append(l.subgraphExtensions, extensions)
+	l.subgraphExtensionsOrigins = append(l.subgraphExtensionsOrigins, origin)
+}
+
+// orderedSubgraphExtensions returns the collected extensions in the order of the plan (fetch id, then data source)
+// instead of the order in which the responses were merged: which of two parallel fetches completes first
+// must not decide which value is the "first write" and which the "last write" of a key.
+func (l *Loader) orderedSubgraphExtensions() []*astjson.Object {
+	if len(l.subgraphExtensions) < 2 || len(l.subgraphExtensions) != len(l.subgraphExtensionsOrigins) {
+		return l.subgraphExtensions
+	}
+	order := make([]int, len(l.subgraphExtensions))
+	for i := range order {
+		order[i] = i
+	}
+	sort.SliceStable(order, func(a, b int) bool {
+		left, right := l.subgraphExtensionsOrigins[order[a]], l.subgraphExtensionsOrigins[order[b]]
+		if left.fetchID != right.fetchID {
+			return left.fetchID < right.fetchID
+		}
+		return left.dataSourceID < right.dataSourceID
+	})
+	ordered := make([]*astjson.Object, len(order))
+	for i, k := range order {
+		ordered[i] = l.subgraphExtensions[k]
+	}
+	return ordered
+}
+
 func (l *Loader) recordErroredFetchID(item *FetchItem) {
 	l.dataBuffer.Lock()
 	defer l.dataBuffer.Unlock()
@@ -753,7 +798,7 @@ func (l *Loader) mergeResult(fetchItem *FetchItem, res *result, items []*astjson
 		extensions := response.Get("extensions")
 
 		if astjson.ValueIsNonNull(extensions) && extensions.Type() == astjson.TypeObject {
-			l.subgraphExtensions = append(l.subgraphExtensions, extensions.GetObject())
+			l.collectSubgraphExtensions(fetchItem, res, extensions.GetObject())
 		}
 	}
 
